@@ -354,14 +354,20 @@ Definition sk_query_q := [RAcq LB; RAcq LI; RRel LI; RRel LB].
 (* RepoCacheBug.Query(nil): pinned = mu.RLock { AllIds: mu.RLock }; repaired = AllIds only *)
 Definition sk_query_nil_pinned := [RAcq LB; RAcq LB; RRel LB; RRel LB].
 Definition sk_query_nil := sk_allids.
+(* RepoCacheBug.Query(q) with a full-text term: mu.RLock { index.Search (bleve: no lock of the cache); the hits are
+   looked up in the excerpts map directly; the matchers resolve identity excerpts }: the locks of Query(q).
+   A variant that resolves every hit through ResolveExcerpt takes the read lock again while it holds it. *)
+Definition sk_query_search := sk_query_q.
+Definition sk_query_search_resolving := [RAcq LB; RAcq LB; RRel LB; RAcq LI; RRel LI; RRel LB].
 (* evictIfNeeded evicting the instance of bug b: mu.Lock { NeedCommit: entity RLock; entity Lock, never released } *)
 Definition sk_evict b := wlock LB ++ [RAcq (LE b); RRel (LE b)] ++ wlock (LE b) ++ [WRel LB].
 
-Inductive lcall := CUser | CHit | CMiss | CAppend (b : nat) | CCommit (b : nat) | CAdd (b : nat) | CAllIds | CQueryQ | CQueryNil.
+Inductive lcall := CUser | CHit | CMiss | CAppend (b : nat) | CCommit (b : nat) | CAdd (b : nat) | CAllIds | CQueryQ | CQueryNil | CQuerySearch.
 Definition skel (c : lcall) : list rinstr :=
   match c with
   | CUser => sk_user | CHit => sk_resolve_hit | CMiss => sk_resolve_miss | CAppend b => sk_append b
   | CCommit b => sk_commit b | CAdd b => sk_add b | CAllIds => sk_allids | CQueryQ => sk_query_q | CQueryNil => sk_query_nil
+  | CQuerySearch => sk_query_search
   end.
 
 Lemma heq_refl x : heq x x = true.
@@ -375,7 +381,7 @@ Ltac wo_side := cbn; intros ? ?; repeat match goal with H : _ \/ _ |- _ => destr
 
 Lemma skel_wo c : wo_rw [] (skel c).
 Proof. destruct c; unfold skel, sk_user, sk_resolve_hit, sk_resolve_miss, sk_append, sk_commit, sk_add, sk_allids,
-  sk_query_q, sk_query_nil, sk_allids, sk_notify, sk_evict_none; repeat wo_step; try reflexivity; wo_side. Qed.
+  sk_query_search, sk_query_q, sk_query_nil, sk_allids, sk_notify, sk_evict_none; repeat wo_step; try reflexivity; wo_side. Qed.
 
 (* every thread is a sequence of (repaired) cache calls, on any bugs: no schedule gets stuck *)
 Theorem C18_cache_calls_never_stuck (progs : list (list lcall)) (sched : list nat) :
@@ -399,3 +405,12 @@ Proof. cbn. intros (_ & _ & _ & H). discriminate H. Qed.
 Lemma evicted_handle_stuck : exists sched,
   stuckb (rrun sched [mkrt [] (sk_evict 0); mkrt [] (sk_resolve_hit ++ sk_append 0)]) = true.
 Proof. exists [1; 1; 0; 0; 0; 0; 0; 0; 0; 1]. vm_compute. reflexivity. Qed.
+
+(* a full-text Query that resolves its hits through ResolveExcerpt re-enters the read lock of the sub-cache:
+   outside the discipline, and stuck as soon as a writer (any edit, load or commit) is announced in between *)
+Example search_resolving_not_wo : ~ wo_rw [] sk_query_search_resolving.
+Proof. cbn. intros [_ [H _]]. specialize (H (LB, false) (or_introl eq_refl)). cbn in H. unfold LB in H. lia. Qed.
+
+Lemma search_resolving_stuck : exists sched,
+  stuckb (rrun sched [mkrt [] sk_query_search_resolving; mkrt [] (sk_append 0)]) = true.
+Proof. exists [0; 1; 1; 1; 1; 1; 1; 1]. vm_compute. reflexivity. Qed.
